@@ -588,6 +588,21 @@ static void run_c07(const RunSpec& s, RunResult& R) {
   for (size_t j = 0; j < s.P.calls.size(); ++j) {
     const Call& c = s.P.calls[j];
     int i = c.repeat_of;
+    if (i >= 0 && c.op >= OP_ZNX_ADD_REF && c.op <= OP_RNX_DIV_AVX && a.done[i] && a.done[j]) {
+      // data-movement / integer / one-multiplication kernels: the twins return identical bytes
+      const uint64_t nb = s.P.slots[c.s[0]].n * 8;
+      pairs++;
+      if (memcmp(a.ptr[s.P.calls[i].s[0]], a.ptr[c.s[0]], nb) != 0) {
+        Violation v;
+        v.kind = "dispatch-dependent-output";
+        v.detail = std::string(op_info[c.op].name) + " disagrees with " + op_info[s.P.calls[i].op].name + " on identical operands (nn=" + std::to_string(c.p[0]) + ")";
+        v.call = (int)j;
+        v.op = c.op;
+        R.viol.push_back(v);
+        R.status = "violation";
+      }
+      continue;
+    }
     if (i < 0 || c.op < OP_Q120_BAA_REF || c.op > OP_Q120X2_2COLS_AVX2 || !a.done[i] || !a.done[j]) continue;
     const uint64_t* x = (const uint64_t*)a.ptr[s.P.calls[i].s[0]];
     const uint64_t* y = (const uint64_t*)a.ptr[c.s[0]];
